@@ -64,6 +64,25 @@ impl<'a> Tape<'a> {
     pub fn u16(&mut self) -> u16 {
         self.next()
     }
+    /// boundary-biased u16 (0, 1, 255, 256, 32767, 32768, 65534, 65535 with probability 1/3)
+    pub fn u16b(&mut self) -> u16 {
+        match self.pick(12) {
+            0 => [0u16, 1, 255, 256][self.pick(4)],
+            1 => [32_767u16, 32_768, 65_534, 65_535][self.pick(4)],
+            2 => 0,
+            3 => 65_535,
+            _ => self.next(),
+        }
+    }
+    /// boundary-biased u32
+    pub fn u32b(&mut self) -> u32 {
+        match self.pick(8) {
+            0 => 0,
+            1 => u32::MAX,
+            2 => [1u32, 65_535, 65_536, 0x7FFF_FFFF, 0x8000_0000, 268_435_455, 268_435_456, u32::MAX - 1][self.pick(8)],
+            _ => self.u32(),
+        }
+    }
     pub fn u32(&mut self) -> u32 {
         // small values stay likely: class choice first
         match self.pick(4) {
